@@ -29,7 +29,7 @@
 (*    runs.  IMPLEMENTATION-SHAPED: names = co_varnames[:co_argcount]      *)
 (*    ("argcount", as found: keyword-only parameters are not seen) or      *)
 (*    co_varnames[:co_argcount + co_kwonlyargcount] ("kwonly", repaired),  *)
-(*    'self' skipped, fn called with the collected keywords.                                     *)
+(*    'self' skipped, fn called with the collected keywords.               *)
 (* 2. _get_specie_kwargs: keys are texts (character codes).                *)
 (* 3. format_conditions.   4. pmutt_list_to_dict.                          *)
 (* 5. _apply_numpy_operation, _is_iterable, _check_iterable_attr.          *)
